@@ -28,11 +28,15 @@ Definition KnownClass_content_indirect (d : doc) (page : oid) : bool := negb (co
 (* ---- class C11-content-shared: a content stream of the page is used by another page, or twice ---- *)
 Fixpoint has_dup (l : list oid) : bool :=
   match l with [] => false | x :: l' => mem_oid x l' || has_dup l' end.
+(* content stream ids are compared after following reference objects to the object they end at *)
+Definition resolve_id (m : objmap) (id : oid) : oid :=
+  match dereference m (ORef (fst id) (snd id)) with Some (Some r, _) => r | _ => id end.
+Definition content_ids (m : objmap) (page : oid) : list oid := map (resolve_id m) (get_page_contents m page).
 Definition KnownClass_content_shared (d : doc) (page : oid) : bool :=
   let m := d_objects d in
-  let mine := get_page_contents m page in
+  let mine := content_ids m page in
   has_dup mine ||
-  existsb (fun p => negb (oid_eqb p page) && existsb (fun i => mem_oid i mine) (get_page_contents m p)) (page_iter d) ||
+  existsb (fun p => negb (oid_eqb (resolve_id m p) (resolve_id m page)) && existsb (fun i => mem_oid i mine) (content_ids m p)) (page_iter d) ||
   (1 <? length (filter (oid_eqb page) (page_iter d)))%nat.
 
 (* ---- class C11-resources-shadow: no Resources of its own, but an ancestor provides a non-empty one ---- *)
